@@ -5,9 +5,9 @@
 //                               the embedded BGP bytes and their parse-back are *inputs* of the Lean model/spec)
 //   c19 mk                      stdin: cases whose EMB fields are `?` and whose tbl is empty -> completed cases
 //
-// Case:  (case (tbl (f xFRAME C0 C1)...) (recs REC...))
-//   C0/C1 = content the repository's own decoder (parse_message + validate_message) gives for FRAME with
-//           add-path off / on;  content terms:
+// Case:  (case (tbl (f AP xFRAME C)...) (recs REC...))
+//   C = content the repository's own decoder (parse_message + validate_message) gives for FRAME with
+//       add-path AP;  content terms:
 //     (open ASN HOLD RID (caps CAP...)) | (reach FAM ((PID xNLRI)...) NH (ATTR...)) | (unreach FAM ((PID xNLRI)...))
 //     | (eor FAM) | (notif CODE SUB xDATA) | keepalive | (rr FAM) | err | (multi C...)
 //     NH = none | xBYTES ; ATTR = (CODE FLAGS val N) | (CODE FLAGS bin xDATA) | (CODE FLAGS opq xDATA)
@@ -443,7 +443,7 @@ enum Real {
 struct Built {
     term: Term,
     real: Real,
-    embs: Vec<Vec<u8>>,
+    embs: Vec<(bool, Vec<u8>)>,
     tags: Vec<Term>,
 }
 
@@ -493,7 +493,7 @@ fn build(t: &Term) -> Option<Built> {
             emb_tags(&emb, &mut tags);
             let term = Term::tag("bmp-rm", vec![a[0].clone(), a[1].clone(), emb_term(&emb), a[3].clone()]);
             let real = Real::Bmp(bmp::Message::RouteMonitoring { header: h.real(), update: msg, addpath: ap });
-            Some(Built { term, real, embs: emb.into_iter().collect(), tags })
+            Some(Built { term, real, embs: emb.into_iter().map(|e| (ap, e)).collect(), tags })
         }
         "bmp-up" if a.len() == 7 => {
             let h = hdr_of(&a[0])?;
@@ -519,7 +519,7 @@ fn build(t: &Term) -> Option<Built> {
                 local_open: ml,
                 remote_open: mr,
             });
-            Some(Built { term, real, embs: emb.into_iter().collect(), tags })
+            Some(Built { term, real, embs: emb.into_iter().map(|e| (false, e)).collect(), tags })
         }
         "bmp-down" if a.len() == 2 => {
             let h = hdr_of(&a[0])?;
@@ -549,7 +549,7 @@ fn build(t: &Term) -> Option<Built> {
                             let emb = standalone(&[&m], false);
                             emb_tags(&emb, &mut tags);
                             let rt = Term::tag(rk, vec![emb_term(&emb), r[2].clone()]);
-                            embs.extend(emb);
+                            embs.extend(emb.map(|e| (false, e)));
                             if rk == "local-notif" {
                                 tags.push(Term::atom("reason-1"));
                                 (rt, bmp::PeerDownReason::LocalNotification(m))
@@ -604,7 +604,7 @@ fn build(t: &Term) -> Option<Built> {
             emb_tags(&emb, &mut tags);
             let term = Term::tag("mrt-mp", vec![a[0].clone(), a[1].clone(), emb_term(&emb), a[3].clone()]);
             let real = Real::Mrt(mrt::Message::Mp { header, body: msg, addpath: ap });
-            Some(Built { term, real, embs: emb.into_iter().collect(), tags })
+            Some(Built { term, real, embs: emb.into_iter().map(|e| (ap, e)).collect(), tags })
         }
         "td-peers" if a.len() >= 2 => {
             let ts = u32_of(&a[0])?;
@@ -688,16 +688,16 @@ fn build(t: &Term) -> Option<Built> {
     }
 }
 
-fn tbl_term(embs: &[Vec<u8>]) -> Term {
-    let mut seen: Vec<&[u8]> = vec![];
+fn tbl_term(embs: &[(bool, Vec<u8>)]) -> Term {
+    let mut seen: Vec<(bool, &[u8])> = vec![];
     let mut rows = vec![];
-    for e in embs {
+    for (ap, e) in embs {
         for f in split_frames(e) {
-            if seen.contains(&f) {
+            if seen.contains(&(*ap, f)) {
                 continue;
             }
-            seen.push(f);
-            rows.push(Term::tag("f", vec![Term::bytes(f), parse_back(f, false), parse_back(f, true)]));
+            seen.push((*ap, f));
+            rows.push(Term::tag("f", vec![Term::boolean(*ap), Term::bytes(f), parse_back(f, *ap)]));
         }
     }
     Term::tag("tbl", rows)
@@ -706,7 +706,7 @@ fn tbl_term(embs: &[Vec<u8>]) -> Term {
 /// Complete / re-derive a case: returns (canonical case term, built records).
 fn complete(recs: &[Term]) -> Option<(Term, Vec<Built>)> {
     let built: Vec<Built> = recs.iter().map(build).collect::<Option<Vec<_>>>()?;
-    let embs: Vec<Vec<u8>> = built.iter().flat_map(|b| b.embs.iter().cloned()).collect();
+    let embs: Vec<(bool, Vec<u8>)> = built.iter().flat_map(|b| b.embs.iter().cloned()).collect();
     let case = Term::tag(
         "case",
         vec![tbl_term(&embs), Term::tag("recs", built.iter().map(|b| b.term.clone()).collect())],
@@ -731,8 +731,8 @@ fn run_case(line: &str) -> String {
         if r.len() != 3 {
             return "(bad-case)".into();
         }
-        let Some(f) = r[0].as_bytes() else { return "(bad-case)".into() };
-        if parse_back(&f, false) != r[1] || parse_back(&f, true) != r[2] {
+        let (Some(ap), Some(f)) = (r[0].as_bool(), r[1].as_bytes()) else { return "(bad-case)".into() };
+        if parse_back(&f, ap) != r[2] {
             return "(bad-case)".into();
         }
     }
@@ -839,10 +839,8 @@ fn g_hdr(r: &mut Rng) -> Term {
 fn g_attrs(r: &mut Rng, big: usize) -> Vec<Term> {
     let mut v = vec![];
     let a = |code: u64, flags: u64, k: &str, val: Term| Term::list(vec![Term::nat(code), Term::nat(flags), Term::atom(k), val]);
-    if !r.chance(1, 40) {
-        v.push(a(1, 0x40, "val", Term::nat(r.below(3))));
-    }
-    if !r.chance(1, 40) {
+    v.push(a(1, 0x40, "val", Term::nat(r.below(3))));
+    {
         let n = r.below(4) as usize;
         let mut p = vec![];
         if n > 0 {
@@ -884,8 +882,10 @@ fn g_attrs(r: &mut Rng, big: usize) -> Vec<Term> {
         v.push(a(32, 0xc0, "bin", Term::bytes(&[0, 0, 0xfd, 0xe9, 0, 0, 0, 1, 0, 0, 0, 2])));
     }
     if r.chance(1, 8) {
+        // as the decoder stores it: wire flags, i.e. with the extended-length bit when the value needs it
         let n = *r.pick(&[0usize, 3, 255, 256, 300]);
-        v.push(a(*r.pick(&[200u64, 250]), *r.pick(&[0xc0u64, 0xe0]), "opq", Term::bytes(&vec![0xab; n])));
+        let fl = *r.pick(&[0xc0u64, 0xe0, 0xd0]) | if n > 255 { 0x10 } else { 0 };
+        v.push(a(*r.pick(&[200u64, 250]), fl, "opq", Term::bytes(&vec![0xab; n])));
     }
     v
 }
@@ -929,11 +929,12 @@ fn g_update(r: &mut Rng, tier_big: bool) -> Term {
         return Term::tag("eor", vec![Term::nat(fam_num(fam))]);
     }
     // how many NLRI: mostly few; sometimes around / beyond what one 4096-byte frame holds
-    let n = match r.below(if tier_big { 8 } else { 14 }) {
+    // (one 4096-byte frame holds ~1000 IPv4 /24 or ~580 IPv6 /48 NLRI without add-path)
+    let n = match r.below(if tier_big { 12 } else { 40 }) {
         0 => 0,
-        1 => (700 + r.below(700)) as usize,
-        2 => (1500 + r.below(1500)) as usize,
-        3 => 20,
+        1 => (500 + r.below(700)) as usize,
+        2 if tier_big => (1500 + r.below(1500)) as usize,
+        3 | 4 => 20,
         _ => 1 + r.below(4) as usize,
     };
     let mut ents = vec![];
@@ -959,7 +960,7 @@ fn g_update(r: &mut Rng, tier_big: bool) -> Term {
         let mixed = r.chance(1, 8);
         g_nh(r, v6 != mixed)
     };
-    let big = if r.chance(1, 12) { *r.pick(&[3000usize, 4000, 4040, 4100, 5000]) } else { 0 };
+    let big = if r.chance(1, 50) { *r.pick(&[3000usize, 4000, 4040, 4100, 5000]) } else { 0 };
     Term::tag("reach", vec![Term::nat(fam_num(fam)), Term::list(ents), nh, Term::list(g_attrs(r, big))])
 }
 
@@ -1097,13 +1098,13 @@ fn g_ent(r: &mut Rng, v6: bool, npeers: usize, big: bool) -> Term {
     };
     let mut attrs = if r.chance(1, 12) { vec![] } else { g_attrs(r, 0) };
     let nh_attr = if let Some(b) = nh.as_bytes() { b.len() + if v6 { 4 } else { 3 } } else { 0 };
-    if r.chance(1, if big { 8 } else { 30 }) {
+    if r.chance(1, if big { 20 } else { 250 }) {
         // an attribute block of exactly 65535 / 65536 / 65534 bytes (opaque attribute with extended length)
         let cur: usize = attrs.iter().map(|a| attr_of(a).map(|x| x.encode_to_bytes().len()).unwrap_or(0)).sum::<usize>() + nh_attr;
         let target = *r.pick(&[65535usize, 65535, 65534, 65536]);
         if target >= cur + 4 + 256 {
             let n = target - cur - 4;
-            attrs.push(Term::list(vec![Term::nat(201u8), Term::nat(0xc0u8), Term::atom("opq"), Term::bytes(&vec![0xcd; n])]));
+            attrs.push(Term::list(vec![Term::nat(201u8), Term::nat(0xd0u8), Term::atom("opq"), Term::bytes(&vec![0xcd; n])]));
         }
     }
     Term::tag("ent", vec![Term::nat(pidx), Term::nat(*r.pick(&TSS)), if r.chance(1, 12) && attrs.is_empty() { Term::atom("none") } else { nh }, Term::list(attrs)])
@@ -1114,7 +1115,7 @@ fn g_td(r: &mut Rng, big: bool) -> Vec<Term> {
     let ts = *r.pick(&TSS);
     let npeers = match r.below(8) {
         0 => 0,
-        1 => 12 + r.below(300) as usize,
+        1 if r.chance(1, 3) => 12 + r.below(if big { 300 } else { 40 }) as usize,
         _ => 1 + r.below(3) as usize,
     };
     let mut peers = vec![Term::nat(ts), Term::bytes(&pick_v4(r))];
